@@ -115,6 +115,52 @@ fn build(c: &mut Ctx, which: u64, m: &Model) -> Result<PersistentState, String> 
             insert_all(&mut child, &mut c.loader, &items[half..])?;
             Ok(child.freeze(&mut c.loader, &mut EmptyCollector))
         }
+        #[cfg(concordium_base_verif)]
+        5 => {
+            c.log.push("history F: contents plus whole subtrees, freeze, persist, thaw, delete_prefix of the subtrees, freeze".into());
+            // pick prefixes under which the target contents have no key
+            let keys: Vec<Vec<u8>> = m.keys().cloned().collect();
+            let mut prefixes: Vec<Vec<u8>> = vec![];
+            for _ in 0..12 {
+                let mut p = near_key(c.r, &keys);
+                p.push(*c.r.pick(&ALPHABET));
+                if !m.keys().any(|k| k.starts_with(&p)) && !prefixes.iter().any(|q: &Vec<u8>| q.starts_with(&p) || p.starts_with(q)) {
+                    prefixes.push(p);
+                }
+                if prefixes.len() >= 3 {
+                    break;
+                }
+            }
+            let mut st = MutableState::initial_state();
+            let mut items = shuffled(c.r, m);
+            for p in &prefixes {
+                for _ in 0..1 + c.r.below(3) {
+                    let mut k = p.clone();
+                    for _ in 0..c.r.below(3) {
+                        k.push(*c.r.pick(&ALPHABET));
+                    }
+                    items.push((k, gen_val(c.r)));
+                }
+            }
+            c.r.shuffle(&mut items);
+            insert_all(&mut st, &mut c.loader, &items)?;
+            let mut p = st.freeze(&mut c.loader, &mut EmptyCollector);
+            if c.r.chance(1, 2) {
+                c.log.push("  persist: store_update + reload".into());
+                let reference = p.store_update(&mut c.store).map_err(|e| format!("store_update: {:?}", e))?;
+                c.loader = Loader::new(c.store.clone());
+                p = PersistentState::load_from_location(&mut c.loader, reference).map_err(|e| format!("load: {:?}", e))?;
+            }
+            let mut st = p.thaw();
+            {
+                let inner = st.get_inner(&mut c.loader);
+                let mut t = inner.lock();
+                for p in &prefixes {
+                    t.verif_delete_prefix(&mut c.loader, p).map_err(|_| "delete_prefix refused".to_string())?;
+                }
+            }
+            Ok(st.freeze(&mut c.loader, &mut EmptyCollector))
+        }
         _ => {
             c.log.push("history E: build part, freeze, persist, thaw, finish, freeze".into());
             let mut st = MutableState::initial_state();
@@ -348,7 +394,7 @@ pub fn run(ctx: &ChildCtx, sh: &mut Shard) {
         let mut c = Ctx { r: &mut r, store: vec![], loader: Loader::new(vec![]), log: vec![] };
         let res = vmon_core::catch(|| -> Result<(), String> {
             let mut last = None;
-            let hists: Vec<u64> = if miri { vec![1, 4] } else { vec![0, 1, 2, 3, 4] };
+            let hists: Vec<u64> = if miri { vec![1, 4] } else { vec![0, 1, 2, 3, 4, 5] };
             for which in hists {
                 let p = build(&mut c, which, &m)?;
                 sh.evaluations += 1;
